@@ -220,6 +220,18 @@ CHECKS = {
          'built-ins - that granularity is only exercised (threaded runs), not modelled; per-instance state is established by the '
          'generated facts (ast), not by a proof about the Python object graph.',
     technique='Coq proof (footprint invariant over a lexer-object store, induction over schedules; refutation by vm_compute) + ast translator + nested/threaded runs'),
+ 'C16': dict(
+    text='Coq theorems (Reals) over the bodies of the 27 functions, translated from the Python source on every run into a small '
+         'expression language whose meaning is Python arithmetic and the math module on real arguments: each function is the '
+         'mathematical function on its domain and raises outside it, for ALL reals; sin^2+cos^2=1, TAN=SIN/COS, COT=1/TAN, EXP/LN, '
+         'LOG=LN/LN; six inverse pairs undo each other on the principal ranges; ATAN2 is the angle of the point in (-pi, pi], '
+         '#DIV/0! exactly at the origin; PV satisfies the annuity equation (linear form at rate 0). Tied to the code by the '
+         'translator and by grids + random reals against a 60-digit reference, identities, coercions, RAND ranges.',
+    design='7/C16',
+    note='ideal real arithmetic: "within floating-point rounding" is measured by the oracle (relative 1e-9), not proved; the PyMath '
+         'contract is trusted; uses the standard library axioms of the reals (sig_not_dec, sig_forall_dec, '
+         'functional_extensionality_dep, classic); coercion of text/logicals and RAND/RANDBETWEEN are oracle-only.',
+    technique='Coq proof over Reals (lra/nra/field, stdlib inverse-function lemmas) on bodies regenerated by an ast translator + high-precision oracle'),
 }
 PENDING = {}
 def main():
